@@ -197,7 +197,7 @@ func genCase(t *rapid.T) Case {
 }
 
 var options = ev.NewCheck("C14", "option-sets",
-	"rapid: C04 streams (1..30 messages, one in 25 has 300..1500) and chunkings with extra F8 / FE / sysex density; each stream is run under all 8 combinations, either on fresh testdrv loopbacks or one after the other on the same port (listen - stop - listen again, in a drawn order and optionally after a first listening with other options and another sysex buffer size), of UseActiveSense / UseTimeCode / UseSysEx; oracle (metamorphic): run(opts) == run(all on) minus the classes whose option is off, equal in content, order and time stamp (relative to a sync message); non-trivial = stream has active sense, timing clock and sysex and a channel message under running status next to (or around) a filtered byte; distinct by case hash",
+	"rapid: C04 streams (1..30 messages, one in 60 has 300..1500) and chunkings with extra F8 / FE / sysex density; each stream is run under all 8 combinations, either on fresh testdrv loopbacks or one after the other on the same port (listen - stop - listen again, in a drawn order and optionally after a first listening with other options and another sysex buffer size), of UseActiveSense / UseTimeCode / UseSysEx; oracle (metamorphic): run(opts) == run(all on) minus the classes whose option is off, equal in content, order and time stamp (relative to a sync message); non-trivial = stream has active sense, timing clock and sysex and a channel message under running status next to (or around) a filtered byte; distinct by case hash",
 	genCase, run)
 
 func TestPropOptionSets(t *testing.T) { options.Rapid(t, 1000, 30000) }
